@@ -156,7 +156,6 @@ func main() {
 	r.Extra["domain"] = fmt.Sprintf("every tick of [%d, %d] (%d ticks) + the documented alias %d + the finite out-of-range probe set", domLo, domHi, domHi-domLo+1, aliasTick)
 	if f.Tier == "thorough" {
 		r.Extra["lattice"] = "the whole domain, in contiguous sub-ranges of 1 000 000 ticks dealt round-robin to the shards"
-		r.Extra["exhaustive_wrt_domain"] = complete // merged by first shard only; the authoritative flag is 'exhaustive'
 		key := fmt.Sprintf("completed_shard_%02d", f.Shard)
 		if complete {
 			r.Extra[key] = fmt.Sprintf("all %d of its sub-ranges", len(done))
@@ -174,11 +173,11 @@ func main() {
 	for k, v := range x.violBy {
 		r.Extra["sum_violations_"+k] = v
 	}
-	if len(r.Samples) == 0 {
-		for _, t := range []int64{domLo, switchTick, -1, 36650010, domHi} {
-			r.AddSample(map[string]string{"tick": fmt.Sprint(t), "price": dec36(refPrice36(t)), "sqrt_price": dec36(refSqrt36(t))})
-		}
+	var ticksDone int64
+	for _, d := range done {
+		ticksDone += d[1] - d[0] + 1
 	}
+	r.Extra["sum_ticks_in_completed_contiguous_sub_ranges"] = ticksDone
 	r.WallS = time.Since(f.Start).Seconds()
 	r.Emit()
 }
@@ -235,6 +234,9 @@ func (x *runner) edgeProbes() {
 			})
 		}
 	}()
+	for _, t := range []int64{domLo, switchTick, -1, 36650010, domHi} {
+		r.AddSample(map[string]string{"tick": fmt.Sprint(t), "reference_price": dec36(refPrice36(t)), "reference_sqrt_price": dec36(refSqrt36(t))})
+	}
 	bad := func(assertion, fn, arg, detail string) {
 		x.viol(assertion, fn, arg, 0, "edges", func() string { return detail })
 	}
